@@ -88,13 +88,13 @@ def run(ctx):
     ctx.traces += len(progs)
     emit(ctx, rv, recs, by_id)
     lists = [e for e in recs if e["e"] == "cachelist"]
-    nonempty = sum(1 for e in lists if e["cache"])
+    nonempty = sum(1 for e in lists if e["cache"] and e["listed"])
     plants = [e["what"] for e in recs if e["e"] == "plant"]
     effective = sum(1 for w in plants if not w.endswith(":none") and w != "no-cache-dir")
     if nonempty == 0 or effective == 0:
         raise vlib.ToolError("vacuity: non-empty cache listings %d, effective plants %d" % (nonempty, effective))
     # negative controls: a cached snapshot the repository does not have; a differing twin result
-    base = next(e for e in lists if e["cache"] and e["res"] == "ok")
+    base = next(e for e in lists if e["cache"] and e["res"] == "ok" and e["listed"])
     n1 = json.loads(json.dumps(base))
     n1["sc"] = "neg-stale"
     n1["cache"].append({"k": "ab" * 32, "len": 5})
